@@ -96,9 +96,19 @@ def main(tier, seed, replay):
     return V.finish(floor_nontrivial=200 if tier == 'quick' else 3000, floor_evaluations=2000)
 
 
+COMPANIONS = {
+    'companion_c.wb': '{"version":"1.1","cross section":[[123456.0,-234567.0],[-345678.0,456789.0]],"features":[]}',
+    'companion_s.wb': '{"version":"1.1","coordinate system":{"model":"spherical","depth method":"starting point"},"cross section":[[33.0,-12.0],[-20.0,40.0]],"features":[]}',
+}
+
+
 def build(rng, wid, path, files, ctx, cross, ncomp, nq):
-    c = core.Case('w%d' % wid, files=files)
+    c = core.Case('w%d' % wid, files=dict(files, **COMPANIONS))
     world(c, 1, path)
+    # a second world with another cross section (same or other coordinate system) is asked through the 2D entry point at the very same
+    # (x, z, depth) right before about half of the calls: anything the 2D mapping remembers between calls under too small a key shows
+    comp = rng.choice(['companion_c.wb', 'companion_s.wb'])
+    world(c, 9, core.workfile(PID, comp))
     plan = []
     for _ in range(nq):
         d = rng.choice([0.0, rng.uniform(0, 1e5), rng.uniform(0, 3e5), rng.uniform(0, 8e5)])
@@ -108,6 +118,8 @@ def build(rng, wid, path, files, ctx, cross, ncomp, nq):
         props = random_props(rng, ncomp, 6)
         if rng.random() < 0.5:
             props.append((4, 0, 0))
+        if rng.random() < 0.5:
+            q2(c, 9, x2, z2, d, [(1, 0, 0), (4, 0, 0)])
         a = q2(c, 1, x2, z2, d, props)
         (x, y, z), (sx, sy), u = mapped_point(ctx, cross, x2, z2)
         b = q3xyz(c, 1, x, y, z, d, props)
